@@ -144,7 +144,16 @@ class Parser:
         num = self.product(qs[0]) if qs[0] != "1" else ({}, {})
         if len(qs) == 1:
             return num
-        den = self.product(qs[1])
+        # a denominator of several factors must be parenthesised ("W / (m * K)"); without parentheses the usual reading applies:
+        # "W / m * K" is (W / m) * K
+        dfs = self.split_top(qs[1], " * ")
+        if len(dfs) > 1:
+            den = self.factor(dfs[0])
+            for extra in dfs[1:]:
+                ed, em = self.factor(extra)
+                num = (uexpr.add(num[0], ed), uexpr.add(num[1], em))
+        else:
+            den = self.product(qs[1])
         return uexpr.add(num[0], den[0], -1), uexpr.add(num[1], den[1], -1)
 
     def product(self, s):
